@@ -17,6 +17,11 @@ import (
 
 type pair struct{ A int }
 
+// payErr: an ordinary payload value whose type implements error (returned by a callback WITH a nil error)
+type payErr struct{ n int }
+
+func (e payErr) Error() string { return "payload error value " + strconv.Itoa(e.n) }
+
 var (
 	valMu  sync.Mutex
 	valTab = map[int]any{}
@@ -34,8 +39,12 @@ func goVal(n int) any {
 		return v
 	}
 	var v any
-	if n >= 1001 && n <= 1004 { // typed nils: one token per type (all nil values of one type are the same value)
+	if n >= 1001 && n <= 1006 { // typed nils: one token per type (all nil values of one type are the same value); 1005/1006: payloads whose type implements error
 		switch n {
+		case 1005:
+			v = errors.New("a payload that happens to be an error value")
+		case 1006:
+			v = payErr{n: 6}
 		case 1001:
 			v = (*int)(nil)
 		case 1002:
